@@ -36,7 +36,7 @@ def control_devs(s):
     src = "pu" if "pu" in names else "p1"
     out = [("ctl_time", [{"kind": "time", "t": 2 * H, "link": "p2", "value": "CLOSED"}, {"kind": "time", "t": 3 * H, "link": "p2", "value": "OPEN"}]),
            ("ctl_clock", [{"kind": "clock", "t": 5 * H, "link": "p2", "value": "CLOSED"}]),
-           ("ctl_pressure", [{"kind": "pressure", "node": "J2", "rel": "<", "thr": 30.0, "link": "p2", "value": "OPEN"}])]
+           ("ctl_pressure", [{"kind": "pressure", "node": "J2" if any(n["n"] == "J2" for n in s["nodes"]) else "J1", "rel": "<", "thr": 30.0, "link": "p2", "value": "OPEN"}])]
     if tank:
         out.append(("ctl_level", [{"kind": "level", "node": "T", "rel": ">", "thr": 3.4, "link": src, "value": "CLOSED"},
                                   {"kind": "level", "node": "T", "rel": "<", "thr": 2.6, "link": src, "value": "OPEN"}]))
@@ -143,33 +143,48 @@ def prepare(s):
 
 
 def triggers(s, r, i):
-    """distance of the closest state-dependent trigger to its threshold at step i of result r (inf if none)"""
-    best = float("inf")
+    """distances of the state-dependent triggers to their thresholds at step i of result r: {trigger id: distance}"""
+    out = {}
+
+    def put(k, d):
+        out[k] = min(out.get(k, float("inf")), d)
     for n in s["nodes"]:
         if n["t"] == "tank":
             lv = float(r.node["pressure"][n["n"]][i])
-            for thr in (n["min"], n["max"]):
-                best = min(best, abs(lv - thr))
-    for c in s["controls"]:
+            put(("tank-min", n["n"]), abs(lv - n["min"]))
+            put(("tank-max", n["n"]), abs(lv - n["max"]))
+    for k, c in enumerate(s["controls"]):
         if c["kind"] in ("level", "pressure"):
-            best = min(best, abs(float(r.node["pressure"][c["node"]][i]) - c["thr"]))
+            put(("ctl", k), abs(float(r.node["pressure"][c["node"]][i]) - c["thr"]))
     for l in s["links"]:
         ha, hb = float(r.node["head"][l["a"]][i]), float(r.node["head"][l["b"]][i])
         q = float(r.link["flowrate"][l["n"]][i])
         if l["t"] == "pipe" and l.get("cv"):
-            best = min(best, abs(ha - hb), abs(q) * 500.0)
+            put(("cv", l["n"]), min(abs(ha - hb), abs(q) * 500.0))
         elif l["t"] in ("hpump", "ppump"):
-            best = min(best, abs(q) * 500.0)
+            put(("pump", l["n"]), abs(q) * 500.0)
         elif l["t"] in ("PRV", "PSV", "FCV"):
             pa_, pb_ = float(r.node["pressure"][l["a"]][i]), float(r.node["pressure"][l["b"]][i])
             # an ACTIVE valve sits on its setting by definition; its status switches when the OTHER side's pressure
             # reaches the setting (active <-> open) or the head difference changes sign (<-> closed)
             if l["t"] == "PRV":
-                best = min(best, abs(pa_ - l["setting"]), abs(ha - hb))
+                put(("valve", l["n"]), min(abs(pa_ - l["setting"]), abs(ha - hb)))
             elif l["t"] == "PSV":
-                best = min(best, abs(pb_ - l["setting"]), abs(ha - hb))
+                put(("valve", l["n"]), min(abs(pb_ - l["setting"]), abs(ha - hb)))
             else:
-                best = min(best, abs(ha - hb))
+                put(("valve", l["n"]), abs(ha - hb))
+    return out
+
+
+def tie_distance(s, a, b, i):
+    """a near-tie needs BOTH engines close to the SAME trigger at the same step (i or i-1): the smallest, over steps and
+    triggers, of the larger of the two engines' distances"""
+    best = float("inf")
+    for j in (i, max(i - 1, 0)):
+        ta, tb = triggers(s, a, j), triggers(s, b, j)
+        for k in ta:
+            if k in tb:
+                best = min(best, max(ta[k], tb[k]))
     return best
 
 
@@ -228,8 +243,26 @@ def compare(s, a, b, la, lb, upto, counts, near=0.05, limit_steps=()):
             if pdd and inside:
                 counts["pdd_band_skips"] = counts.get("pdd_band_skips", 0) + 1
                 return "pdd-band", i
-            d = min(triggers(s, r, j) for r in (a, b) for j in (i, max(i - 1, 0)))
-            if d < near or i in limit_steps or (i + 1) in limit_steps and False:
+            # a tank reported outside its level range is never a matter of event timing
+            for n in s["nodes"]:
+                if n["t"] == "tank":
+                    for r_, lab in ((a, la), (b, lb)):
+                        lv = float(r_.node["pressure"][n["n"]][i])
+                        if lv < n["min"] - 0.01 or lv > n["max"] + 0.01:
+                            return "tank %s level %.4f outside [%g, %g] in %s; %s" % (n["n"], lv, n["min"], n["max"], lab, msg), i
+            d = tie_distance(s, a, b, i)
+            # a tank that sat on a level limit inside this step in EPANET (possibly between report instants): the engines
+            # may legitimately differ in how long the adjacent links stay shut - but only while engine a's tank is at the
+            # limit too, or has the same level as in EPANET; a tank that went THROUGH its limit is no tie
+            lim_ok = False
+            if i in limit_steps:
+                for n in s["nodes"]:
+                    if n["t"] == "tank":
+                        for j in (i, max(i - 1, 0)):
+                            la_, lb_ = float(a.node["pressure"][n["n"]][j]), float(b.node["pressure"][n["n"]][j])
+                            if min(abs(la_ - n["min"]), abs(la_ - n["max"]), abs(la_ - lb_)) < near:
+                                lim_ok = True
+            if d < near or lim_ok:
                 counts["near_tie_truncations"] = counts.get("near_tie_truncations", 0) + 1
                 return "near-tie", i
             return msg, i
